@@ -173,10 +173,16 @@ func Len[T any](c <-chan T) int {
 	if cur == nil {
 		return len(c)
 	}
-	if st := cur.chanOf(c); st != nil {
-		return len(st.buf)
+	// len of a channel reads shared state: a scheduling step of its own, and what it
+	// answered is part of what the goroutine has observed
+	s := cur
+	s.park(&op{kind: opYield})
+	n := 0
+	if st := s.chanOf(c); st != nil {
+		n = len(st.buf)
 	}
-	return 0
+	s.note(s.cur, "len", fmt.Sprintf("%d", n))
+	return n
 }
 
 // --- harness-side queries (not scheduling points) ---
